@@ -152,6 +152,10 @@ func genInput(t *rapid.T, host string) (string, string) {
 	withPort := hp
 	if port >= 0 {
 		withPort = fmt.Sprintf("%s:%d", hp, port)
+		if port > 0 && rapid.IntRange(0, 5).Draw(t, "port_leading_zeros") == 0 {
+			// RFC 3986: port = *DIGIT; "08443" is port 8443
+			withPort = fmt.Sprintf("%s:%s%d", hp, []string{"0", "00", "000"}[rapid.IntRange(0, 2).Draw(t, "port_zeros")], port)
+		}
 	} else if strings.Contains(host, ":") && rapid.Bool().Draw(t, "bare_v6") {
 		withPort = host
 	}
